@@ -4,5 +4,5 @@ Extraction Language OCaml.
 Extraction "extracted/C06_model.ml" xb_types ms_of_ns render_phout parse_phout sample_ok fields_array
   documented_columns render_file parse_file
   Aggregator.init Aggregator.step Aggregator.run Aggregator.run_error Aggregator.finish_history complete_b
-  phout_dest sink_dest opened this_run phout_enc
+  phout_dest sink_dest opened this_run phout_enc failing prefix_b
   pool_init prun proc_init crun cli_waits cli_failed_waits orderly all_true.
